@@ -32,6 +32,17 @@ def run_life(run, lib, script, tag, fault=None, trace=False, timeout=120, extra_
     return run_script(run, lib, script, tag, timeout=timeout, env=env)
 
 
+def coq_query(run, name, text, timeout=120):
+    """compile a throw-away query file against the run's Gen files; returns coqc's output (diagnosis of a broken obligation)"""
+    from .core import THEORIES, sh
+    d = os.path.join(run.scratch, "props")
+    os.makedirs(d, exist_ok=True)
+    f = os.path.join(d, name + ".v")
+    open(f, "w").write(text)
+    p = sh(["timeout", str(timeout), "coqc", "-q", "-Q", THEORIES, "Snoopy", "-Q", run.gen, "Gen", "-Q", d, "Props", f], check=False, timeout=timeout + 30)
+    return re.sub(r"\s+", " ", p.stdout).strip()
+
+
 def kv(fields):
     d = {}
     for f in fields:
